@@ -122,6 +122,17 @@ Inductive node :=
 | NInline (body : list node)                (* nested settings written inline: no file, no directory *)
 | NBad.                                     (* a value that fails validation for an unrelated reason *)
 
+(* ---- several config files applied one after the other (--cfg f1 --cfg f2 ..., several default_config_files) ----
+   Each loaded file is merged over what the earlier ones gave (`merge_config(cfg_file, cfg)`): a later value replaces the
+   earlier value of the same key, a list / dict value as a whole. The harness numbers the path values so that
+   id / 8 identifies the key (id mod 8: the position inside a list / dict value). *)
+Definition unit_of (it : item) : nat := let '(i, _, _, _) := it in Nat.div i 8.
+Definition merge_items (old new : list item) : list item :=
+  filter (fun o => negb (existsb (fun n => Nat.eqb (unit_of o) (unit_of n)) new)) old ++ new.
+
+(* what a default config file holds: settings | nothing but white space | bytes that cannot be decoded *)
+Inductive dcontent := DBody (body : list node) | DEmpty | DUnreadable.
+
 Section Run.
   Variable fxs : fixes.        (* which repairs have landed (fx_lf and fx_rp matter here); no_fixes = the pinned tree *)
   Variable files : list str.   (* physical absolute paths of the readable regular files *)
@@ -273,4 +284,45 @@ Section Run.
     | ErrOs => (s, ErrOs)
     | Ok (_, a) => bracket (Some a) (seq_nodes run_node body) s
     end.
+
+  (* parse_args(["--cfg", f1, "--cfg", f2, ...]): ActionConfigFile.apply_config once per occurrence, in order, each in
+     the process state the previous one left; an exception ends the parse *)
+  Fixpoint run_cfgs (s : st) (tops : list (str * list node)) (acc : list item) : st * res (list item) :=
+    match tops with
+    | [] => (s, Ok acc)
+    | (top, body) :: rest =>
+        let '(s1, r) := run_top s top body in
+        match r with
+        | Ok xs => run_cfgs s1 rest (merge_items acc xs)
+        | Err => (s1, Err)
+        | ErrOs => (s1, ErrOs)
+        end
+    end.
+
+  (* get_defaults (_core.py): `_get_default_config_files` globs every pattern (a name that does not exist gives
+     nothing) and builds Path(v, "fr") for ALL files first, in the state of the call; then, per file and in order:
+     get_content() (OSError / ValueError -> TypeError), `if not content.strip(): continue`,
+     `with change_to_path_dir(default_config_file)`: load, merge over cfg, _parse_common. *)
+  Definition resolve_defaults (s : st) (tops : list (str * dcontent)) : list (str * dcontent) :=
+    flat_map (fun tc => match open_fr s (fst tc) with Ok (_, a) => [(a, snd tc)] | _ => [] end) tops.
+
+  Fixpoint run_defaults_abs (s : st) (tops : list (str * dcontent)) (acc : list item) : st * res (list item) :=
+    match tops with
+    | [] => (s, Ok acc)
+    | (a, c) :: rest =>
+        match c with
+        | DUnreadable => (s, Err)
+        | DEmpty => run_defaults_abs s rest acc
+        | DBody body =>
+            let '(s1, r) := bracket (Some a) (seq_nodes run_node body) s in
+            match r with
+            | Ok xs => run_defaults_abs s1 rest (merge_items acc xs)
+            | Err => (s1, Err)
+            | ErrOs => (s1, ErrOs)
+            end
+        end
+    end.
+
+  Definition run_defaults (s : st) (tops : list (str * dcontent)) : st * res (list item) :=
+    run_defaults_abs s (resolve_defaults s tops) [].
 End Run.
